@@ -85,6 +85,9 @@ func satExportOne(b *ProgBeh, field, builder string) SatCase {
 	if ins.Op == "ToBinary" && ins.N >= 6 {
 		sc.N = bits + (ins.N - 6)
 	}
+	if ins.Op == "GRangePlain" && ins.N >= 5 {
+		sc.N = bits + (ins.N - 6)
+	}
 	m := 0
 	for _, in := range b.Prog {
 		m += nOut(in, bits)
